@@ -7,6 +7,7 @@ under /verif/.work/facts/<sha256 of the sources>/ so that 20 property checks on 
 share one extraction, and a changed tree is always re-extracted.
 """
 import fcntl
+import re
 import hashlib
 import json
 import os
@@ -324,9 +325,29 @@ class Facts:
         self.hash = h
         self.repo = repo_dir()
         with open(os.path.join(outdir, "facts-lib.json")) as fh:
-            self.lib = json.load(fh)
+            lib_text = fh.read()
         with open(os.path.join(outdir, "facts-bin.json")) as fh:
-            self.bin = json.load(fh)
+            bin_text = fh.read()
+        self.lib = json.loads(lib_text)
+        self.bin = json.loads(bin_text)
+        self.renamed = self._renamed_functions()
+        if self.renamed:
+            # a function that was renamed or moved is read under the name the rules know it by
+            for new_dp, old_dp in sorted(self.renamed.items(), key=lambda kv: -len(kv[0])):
+                pat = re.compile(re.escape(new_dp) + r"(?![A-Za-z0-9_])")
+                lib_text = pat.sub(lambda m_: old_dp, lib_text)
+                bin_text = pat.sub(lambda m_: old_dp, bin_text)
+            self.lib = json.loads(lib_text)
+            self.bin = json.loads(bin_text)
+            back = {old: new for new, old in self.renamed.items()}
+            for src in (self.lib, self.bin):
+                for b in src["bodies"]:
+                    if b["def_path"] in back:
+                        b["renamed_from"] = back[b["def_path"]]
+                        b["name"] = b["def_path"].split("::")[-1]
+                    for n in walk(b.get("body")):
+                        if n.get("k") == "MethodCall" and callee(n) in back and n.get("method") == back[callee(n)].split("::")[-1]:
+                            n["method"] = callee(n).split("::")[-1]
         self.grammars = {}
         for name in GRAMMARS:
             with open(os.path.join(outdir, "grammar-%s.json" % name)) as fh:
@@ -345,6 +366,44 @@ class Facts:
         self.impls = self.lib["impls"]
         self.helpers = set()   # def-paths of later-extracted helper functions whose bodies are attached to their call sites
         self._graft_helpers()
+
+    def _renamed_functions(self):
+        """{current def-path: def-path at the time the rules were written} for functions that were renamed (same module or impl, same
+        signature, another name) or moved (same name and signature, another module).  Only unambiguous pairs: a function of the reference
+        list (rules/known_signatures.json) that no longer exists, and exactly one function that did not exist then with its signature."""
+        try:
+            with open(os.path.join(os.path.dirname(os.path.abspath(__file__)), "known_signatures.json")) as fh:
+                known = json.load(fh)
+        except OSError:
+            return {}
+        cur = {}
+        for src in (self.lib, self.bin):
+            for b in src["bodies"]:
+                if b.get("kind") in ("Fn", "AssocFn") and "{" not in b["def_path"]:
+                    cur[b["def_path"]] = {"params": b.get("param_tys") or [p_.get("ty") for p_ in b.get("params", [])], "ret": b.get("ret_ty"), "kind": b["kind"]}
+        missing = [k for k in known if k not in cur]
+        fresh = [k for k in cur if k not in known]
+        if not missing or not fresh:
+            return {}
+
+        def parent(dp):
+            return dp.rsplit("::", 1)[0] if "::" in dp else ""
+
+        def same_sig(a, b, old_parent, new_parent):
+            # a type that names the moved item's own module is compared after re-rooting
+            def fix(t):
+                return str(t).replace(new_parent + "::", old_parent + "::") if new_parent and old_parent else str(t)
+            return a["kind"] == b["kind"] and [str(x) for x in a["params"]] == [fix(x) for x in b["params"]] and str(a["ret"]) == fix(b["ret"])
+        cand = {}
+        for m in missing:
+            cs = [f for f in fresh if (parent(f) == parent(m) or f.split("::")[-1] == m.split("::")[-1]) and same_sig(known[m], cur[f], parent(m), parent(f))]
+            if len(cs) == 1:
+                cand[m] = cs[0]
+        out = {}
+        for m, f in cand.items():
+            if list(cand.values()).count(f) == 1:
+                out[f] = m
+        return out
 
     def _graft_helpers(self):
         """Helper transparency for the HIR-level rules: at every call of a crate-local function that did not exist when the rules were written
